@@ -615,3 +615,87 @@ func init() {
 	checkTable["C06"] = &checkSpec{needEnd: true, jobs: func(tier string) []*Job { return specJobs(tier, 1) }, bounds: specBounds, outside: outsideCommon,
 		assumptions: append([]string{"CRC-32 is an uninterpreted fold (crc_step per byte, crc(empty)=0): stored and recomputed values are equal under every interpretation exactly when the writer fed the specified bytes in order; solver counterexamples are replayed with the real CRC-32"}, commonAssumptions...)}
 }
+
+func init() {
+	checkTable["C12"] = &checkSpec{
+		needEnd: true,
+		jobs: func(tier string) []*Job {
+			var js []*Job
+			add := func(n, att, part, xor, defs, perm, opt, attAfter, validate, self int) {
+				js = append(js, &Job{Module: "mcap", Harness: "VC12Layout", Params: P("n", n, "att", att, "part", part, "xor", xor, "defs", defs, "perm", perm, "opt", opt, "attAfter", attAfter, "validate", validate, "self", self), TimeoutS: 1200})
+			}
+			if tier == "quick" {
+				for perm := 0; perm < 12; perm++ {
+					add(3, 1, 1+perm%4, 0, perm%3, perm, 511, perm%2, perm%2, 1)
+				}
+				for bit := 0; bit < 9; bit++ {
+					add(3, 1, 2, 0, 0, bit, 511&^(1<<bit), 1, 1, 1)
+				}
+				add(3, 1, 0, 0, 0, 0, 511, 1, 0, 1)
+				add(3, 0, 0, 0, 0, 3, 0, 0, 0, 1)
+				add(3, 1, 2, 5, 0, 2, 511, 0, 1, 1)
+				add(4, 1, 5, 0, 2, 4, 511, 2, 1, 1)
+				add(4, 0, 5, 0, 1, 7, 256|128|64, 0, 0, 1)
+				return js
+			}
+			for perm := 0; perm < 12; perm++ {
+				for part := 0; part <= 5; part++ {
+					for defs := 0; defs <= 2; defs++ {
+						add(4, 1, part, 0, defs, perm, 511, (perm+part)%3, part%2, 1)
+					}
+				}
+			}
+			for opt := 0; opt < 512; opt += 7 {
+				add(3, 1, 2, 0, opt%3, opt%12, opt, 1, 1, 1)
+				add(3, 1, 1, 0, opt%3, (opt+5)%12, opt|256|128, 0, 0, 1)
+			}
+			for xor := 1; xor < 8; xor++ {
+				add(3, 1, 2, xor, 0, xor, 511, 1, 1, 1)
+			}
+			return js
+		},
+		bounds: map[string]any{
+			"quick":    map[string]any{"content": "schema, 2 channels (one schemaless; symbolic strings and a metadata map), 3-4 messages with symbolic times/payloads, optionally an attachment and a metadata record", "layouts": "produced by an encoder written from the specification only: chunk partitions (unchunked / one chunk / one message per chunk / 1+rest / rest+1 / 2+rest), none and xor per chunk, definitions before first use / all up front / repeated in every chunk, 12 orders of the 6 summary groups, each optional part (message indexes, statistics, summary offsets, attachment index, metadata index, CRCs, repeated schemas, repeated channels, chunk indexes) dropped in turn - a diagonal of 26 layouts", "readers": "lexer, non-indexed iterator, Info, GetAttachmentReader/GetMetadata through index entries, Messages() in file, log-time and reverse order", "self_check": "every encoder output is also run through the specification decoder (grammar, pointers, CRCs)"},
+			"thorough": map[string]any{"layouts": "12 group orders x 6 partitions x 3 definition placements; 74 x 2 subsets of optional parts; all xor masks"},
+		},
+		outside:     append([]string{"zstd/lz4 chunks (only the harness xor codec stands for 'another compression', and only through the lexer: the Reader API takes no decompressor)", "where a layout lacks repeated schemas/channels or chunk indexes, an index-based read may refuse with an error (C02's rule); for every other optional part equality is required"}, outsideCommon...),
+		assumptions: commonAssumptions,
+	}
+	checkTable["C11"] = &checkSpec{
+		needEnd: true,
+		jobs: func(tier string) []*Job {
+			var js []*Job
+			add := func(n, part, defs, perm, opt, unk, ulen, pad, validate int) {
+				js = append(js, &Job{Module: "mcap", Harness: "VC11Unknown", Params: P("n", n, "att", 1, "part", part, "defs", defs, "perm", perm, "opt", opt, "attAfter", 1, "validate", validate, "unk", unk, "ulen", ulen, "pad", pad), TimeoutS: 1200})
+			}
+			parts := []int{2}
+			if tier == "thorough" {
+				parts = []int{1, 2, 3}
+			}
+			for _, part := range parts {
+				for unk := 1; unk <= 8; unk++ {
+					add(3, part, unk%3, unk, 511, unk, 3, 0, unk%2)
+					add(3, part, 0, 0, 511, unk, 0, 0, 1)
+					if tier == "thorough" {
+						add(3, part, 1, unk+3, 511, unk, 5, 0, 0)
+						add(3, part, 2, unk, 511, unk, 1, 2, 1)
+					}
+				}
+				add(3, part, 0, 0, 511, 0, 0, 1, 1)
+				add(3, part, 1, 4, 511, 0, 0, 3, 0)
+				add(3, part, 2, 2, 511, 6, 2, 2, 1)
+			}
+			for _, unk := range []int{1, 5, 6, 7, 8} {
+				add(3, 0, 0, unk, 511, unk, 3, 0, 0)
+			}
+			add(3, 0, 0, 0, 511, 0, 0, 3, 0)
+			return js
+		},
+		bounds: map[string]any{
+			"quick":    map[string]any{"content": "as C12 (3 messages, attachment, metadata)", "unknown_record": "opcode symbolic over 0x10..0xFF, body of 0 or 3 symbolic bytes, inserted at each of 8 position classes: after the header, at the start and at the end of a chunk's records, between a chunk and its message indexes, right before DataEnd, at the start of the summary, between two summary groups, after the summary offsets", "appended_fields": "1 and 3 symbolic bytes appended to every extensible record (all but message, chunk, data end, footer) with all offsets recomputed", "layouts": "one message per chunk (thorough: 3 partitions) and unchunked", "oracle": "the logical content itself: every reader must return exactly it"},
+			"thorough": map[string]any{"unknown_record": "bodies 0,1,3,5; combined with padding"},
+		},
+		outside:     append([]string{"opcodes 0x10..0x7F are 'reserved for future use' and 0x80..0xFF private: both are unknown to the library and both are covered; opcode 0x00 is invalid by specification and not inserted", "bytes appended to message, chunk, data end and footer records (not extensible by specification)"}, outsideCommon...),
+		assumptions: commonAssumptions,
+	}
+}
